@@ -106,6 +106,7 @@ rl.on('line', (line) => {
         let resp
         try { resp = rw.rewrite(st.code, st.file); r = { content: resp.content, status: resp.metrics && resp.metrics.status } } catch (e) { r = { threw: String(e) } }
         if (resp) last[st.file] = resp.content
+        else last[st.file] = st.code     // a caller whose rewrite failed serves the file as written
       } else if (st.op === 'lookup') {
         r = pkg.getPrepareStackTrace && require(path.join(REPO, 'js/source-map')).getSourcePathAndLineFromSourceMaps(st.file, st.line, st.column)
       } else if (st.op === 'orig_lookup') {
